@@ -35,6 +35,17 @@ def main():
         if patch.startswith("revert:"):
             d = subprocess.run(["git", "-C", dst, "show", patch[7:]], capture_output=True, text=True, check=True).stdout
             subprocess.run(["git", "-C", dst, "apply", "-R"], input=d, text=True, check=True)
+        elif patch.startswith("edit:"):
+            # edit:<relpath>@@<old>@@<new>[@@<occurrence index>]  - replace one occurrence of a literal string
+            parts = patch[5:].split("@@")
+            rel, old, new = parts[0], parts[1], parts[2]
+            k = int(parts[3]) if len(parts) > 3 else 0
+            fn = os.path.join(dst, rel)
+            txt = open(fn).read()
+            pos = -1
+            for _ in range(k + 1):
+                pos = txt.index(old, pos + 1)
+            open(fn, "w").write(txt[:pos] + new + txt[pos + len(old):])
         else:
             subprocess.check_call(["git", "-C", dst, "apply", os.path.abspath(patch)])
         if run_tests:
